@@ -100,7 +100,7 @@ def family_fixed(tier, seed, n=None):
             core = t < (per + 1) // 2
             rnd = random.Random((404 if core else 4100 + seed) * 100003 + t * 31 + FIXED_KINDS.index(kind))
             size = rnd.choice([0, 1, 2, 3, 3])
-            if kind in ("index", "idx_merge"):
+            if kind in ("index", "idx_merge", "fe_agg"):
                 size = 3
             fields = [fld("a", 2, False), fld("k", 2, False, rand=False, init=rnd.randrange(4)),
                       list_field("l", 2, rnd.random() < 0.2 and kind not in ("sum",), init=[0] * size, cap=5),
